@@ -99,6 +99,18 @@ def make_body(flav_name, cls_names, banks_per_slot, falsify=False):
                 oo, bo = orig.operands, b.operands
                 obs.append(Ob("operands", z3.And(z3.BoolVal(len(oo) == len(bo)),
                                                  *[eq_operand(x, y) for x, y in zip(oo, bo)]), st))
+        # the same Subroutine object encoded a second time after its app id was changed through the setter (e.g. re-sent for another
+        # application): the bytes must follow the object, not what was encoded before
+        try:
+            app2 = inp.bv("app_id_2", 16, False)
+            sub.app_id = app2
+            back2 = deserialize(bytes(sub), flavour=flav)
+            obs.append(Ob("meta_after_reencode", EQV(back2.app_id, app2), dict(site0, cls="<header>")))
+            obs.append(Ob("length_after_reencode", len(back2.instructions) == len(instrs), dict(site0, cls="<subroutine>")))
+        except PathAbort:
+            raise
+        except Exception as e:  # noqa
+            obs.append(Ob("encode", False, dict(site0, cls="<second encoding>", exc=type(e).__name__), info=repr(e)[:200]))
         return obs
 
     return body
